@@ -344,6 +344,83 @@ def t1_assert(za, site):
     return False, k
 
 
+def _env_field_of(cf, local, hops=6):
+    """the closure-environment field a local of the closure body is read from (`_8 = deref_copy (*_1).0`, through moves and
+    PtrMetadata): its index, or None"""
+    for _ in range(hops):
+        ds = [d_ for d_ in prim.local_defs(cf).get(local, []) if d_[1] != "partial"]
+        if len(ds) != 1 or ds[0][1] != "assign" or ds[0][2].rv is None:
+            return None
+        rv = ds[0][2].rv
+        pl = rv.place if rv.place is not None else (rv.ops[0].place if rv.ops and rv.ops[0].place is not None else None)
+        if pl is None:
+            return None
+        if pl.local == 1:
+            fs = [e for e in pl.proj if isinstance(e, dict) and "f" in e]
+            if len(fs) == 1 and all(e == "*" or (isinstance(e, dict) and "f" in e) for e in pl.proj):
+                return fs[0]["f"]
+            return None
+        if any(e != "*" for e in pl.proj):
+            return None
+        local = pl.local
+    return None
+
+
+def t1_closure_bounds(prog, zc, site):
+    """`slice[i]` inside a closure where both the slice and the index are captured variables (`.ok_or_else(|| format!("..{}",
+    args[i]))`): the captured values cannot change while the closure exists (shared borrow, or a copy), so the bounds check
+    holds if `i < len(slice)` holds wherever the closure is built. Checked in the zone state of every construction site."""
+    cf, t = site.fn, site.term
+    m = t.j.get("msg", {})
+    if not cf.closure_of or m.get("k") != "bounds":
+        return False, ""
+    io, lo = Operand(m["index"]), Operand(m["len"])
+    if io.place is None or lo.place is None or not io.place.is_local() or not lo.place.is_local():
+        return False, ""
+    ki, kl = _env_field_of(cf, io.place.local), _env_field_of(cf, lo.place.local)
+    if ki is None or kl is None or ki == kl:
+        return False, ""
+    n_sites = 0
+    for P in prog.fns.values():
+        for b in P.reachable():
+            for st_ in P.blocks[b].stmts:
+                if st_.rv is None or st_.rv.k != "agg" or st_.rv.j.get("ak") not in ("closure", "coroutine") or st_.rv.j.get("def") != cf.path:
+                    continue
+                n_sites += 1
+                if max(ki, kl) >= len(st_.rv.ops):
+                    return False, ""
+                za = zc.get(P)
+                state = za.state_before_term(b)
+                if state is None:
+                    continue            # unreachable in the abstract semantics
+                d, env = state
+
+                def captured_place(op):
+                    # the captured operand: a copy of the variable, or a reference made just before
+                    pl = op.place
+                    if pl is None:
+                        return None
+                    if pl.is_local() and pl.local not in za.var_of_local and pl.local not in za.len_of_local:
+                        ds = [d_ for d_ in prim.local_defs(P).get(pl.local, []) if d_[1] != "partial"]
+                        if len(ds) == 1 and ds[0][1] == "assign" and ds[0][2].rv is not None and ds[0][2].rv.k == "ref" and ds[0][2].rv.j.get("bk") == "shared" and ds[0][0] == b:
+                            return ds[0][2].rv.place
+                        return None
+                    return pl
+                pi, ps = captured_place(st_.rv.ops[ki]), captured_place(st_.rv.ops[kl])
+                if pi is None or ps is None or not pi.is_local() or pi.local not in za.var_of_local:
+                    return False, "captured index/slice not tracked at %s" % prim.site(P, b)
+                bl = za.base_local(ps, env)
+                if bl is None:
+                    return False, "captured slice not tracked at %s" % prim.site(P, b)
+                idx = ("lin", za.var_of_local[pi.local], 0)
+                ln = ("lin", za.len_of_local[bl], 0)
+                if not (za.le(d, idx, ln, -1) and za.le(d, ("lin", 0, 0), idx)):
+                    return False, "at %s the captured index %s is not shown below the captured length %s" % (prim.site(P, b), za.describe(d, idx), za.describe(d, ln))
+    if n_sites == 0:
+        return False, ""
+    return True, "zone of the %d site(s) that build the closure: the captured index is below the length of the captured slice there, and neither can change while the closure exists" % n_sites
+
+
 def t1_index(za, site):
     """Index::index on slices / Vec with usize or range operands (str ranges are handled by the S1 rule)"""
     fn, b, t = site.fn, site.bb, site.term
@@ -704,7 +781,7 @@ def check_condition(prog, site, cond):
         o0 = prim.resolve_promoted(fn, prim.expand_single_def_vars(fn, prim.origin_of_operand(fn, t.args[1])))
         # the format may be chosen first (`let f = match self { Ctime => CONST, Strftime(s) => s, .. }`) and used once
         s0 = o0.strip()
-        while s0.k == "call" and s0.a["name"] in ("deref", "as_str", "as_ref", "borrow") and s0.kids:
+        while s0.k == "call" and s0.a["name"] in ("deref", "as_str", "as_ref", "borrow", "into", "from") and s0.kids:
             s0 = s0.kids[0].strip()
         if s0.k == "var" and s0.a.get("local") is not None and len([x for x in prim.local_defs(fn).get(s0.a["local"], []) if x[1] != "partial"]) > 1:
             alts = [prim.resolve_promoted(fn, prim.expand_single_def_vars(fn, od_)) for _, od_ in prim.defs_origins(fn, s0.a["local"])]
@@ -713,7 +790,7 @@ def check_condition(prog, site, cond):
         any_payload = False
         for o in alts:
             names = {c.a["name"] for c in o.call_nodes()}
-            if not names <= {"replace", "deref", "as_str", "as_ref", "borrow"}:
+            if not names <= {"replace", "deref", "as_str", "as_ref", "borrow", "into", "from", "to_owned", "to_string", "clone", "into_owned"}:      # (identity conversions, e.g. into a Cow)
                 return False, "format operand %s goes through %s" % (o.fmt()[:120], sorted(names))
             is_payload = any(x.k == "variant" and str(x.a) == cond["variant"] for x in o.walk())
             any_payload = any_payload or is_payload
